@@ -110,7 +110,11 @@ class EMGTrack(Sized, BuildWriteable):
         return base
 
     def __eq__(self, other):
-        return self.label == other.label and np.all(self.data == other.data)
+        return (
+            isinstance(other, EMGTrack)
+            and self.label == other.label
+            and np.array_equal(self.data, other.data, equal_nan=True)
+        )
 
     def __repr__(self) -> str:
         return (
